@@ -143,12 +143,17 @@ func (l *loginInboundConn) handleLoginPluginResponse(res *packet.LoginPluginResp
 	}
 
 	// After the consumer ran (it may have queued more messages), fire the
-	// all-handled callback if nothing is outstanding.
+	// all-handled callback if nothing is outstanding. The callback is one-shot:
+	// it is taken out under the lock so that the reply to a message sent after
+	// the login already completed cannot complete the login a second time.
 	l.mu.Lock()
-	done := len(l.outstandingResponses) == 0
-	onAllMessagesHandled := l.onAllMessagesHandled
+	var onAllMessagesHandled func() error
+	if len(l.outstandingResponses) == 0 {
+		onAllMessagesHandled = l.onAllMessagesHandled
+		l.onAllMessagesHandled = nil
+	}
 	l.mu.Unlock()
-	if done && onAllMessagesHandled != nil {
+	if onAllMessagesHandled != nil {
 		err = errors.Join(err, onAllMessagesHandled())
 	}
 	return err
@@ -157,10 +162,14 @@ func (l *loginInboundConn) handleLoginPluginResponse(res *packet.LoginPluginResp
 func (l *loginInboundConn) loginEventFired(onAllMessagesHandled func() error) error {
 	l.mu.Lock()
 	l.isLoginEventFired = true
-	l.onAllMessagesHandled = onAllMessagesHandled
 	msgs := make([]*packet.LoginPluginMessage, 0, l.loginMessagesToSend.Len())
 	for l.loginMessagesToSend.Len() != 0 {
 		msgs = append(msgs, l.loginMessagesToSend.PopFront())
+	}
+	if len(msgs) != 0 {
+		// Completion is deferred until the last outstanding response arrived;
+		// otherwise it runs right below and must not be kept for a later re-run.
+		l.onAllMessagesHandled = onAllMessagesHandled
 	}
 	l.mu.Unlock()
 
